@@ -27,7 +27,7 @@ C03 obj fwd|bwd lam cheaper mat emu stokes|- [kx,ky] ncomp [jx,jy,amp]… cur | 
                                                   on a whole wavefront record: tensor component t = amp_t × unit impulse at
                                                   sample (jx,jy)_t (fwd: pupil sample, result at focal sample k; bwd: the reverse;
                                                   a point-list grid uses [k,0]); wavelength and Stokes vector of the result
-C03 alias f0|f1|c<i> …                         -> ok ids=field:stokes|-;…   ndarray identities of every wavefront a call history
+C03 alias f0|f1|c<i> …                         -> ok arrays=n ids=field:stokes|-;…   ndarray identities of every wavefront a call history
                                                   creates (f0/f1: new user wavefront without/with Stokes vector, propagated;
                                                   c<i>: wavefront number i of the log propagated again)
 ```
@@ -37,6 +37,9 @@ open HcipyVerif.Proto HcipyVerif.Fraunhofer
 
 structure St where
   session : Option Session := none
+  /-- the session as constructed and the `focal_length` assignments since (for the object ops) -/
+  session0 : Option Session := none
+  sets : List FocalSpec := []
   setup : Option Setup := none
   focal : Option RegGrid := none
 
@@ -115,9 +118,9 @@ def showRef (w : WfRef) : String :=
   s!"{w.field}:" ++ (match w.stokes with | some i => toString i | none => "-")
 
 /-- the `obj` op: runs `LensProp.forward/backward` on the impulse wavefront -/
-def runObj (ss : Session) (fg : FocalSpecGrid) (dir : Dir) (lam : Rat) (cheaper mat emu : Bool)
+def runObj (ss : Session) (sets : List FocalSpec) (fg : FocalSpecGrid) (dir : Dir) (lam : Rat) (cheaper mat emu : Bool)
     (stokes : Option (Rat × Rat × Rat × Rat)) (k : Nat × Nat) (comps : List (Nat × Nat × Rat)) : Option String :=
-  match lensObj ss fg cheaper mat emu with
+  match lensObjAfter ss sets fg cheaper mat emu with
   | none => none
   | some P =>
     if lam * P.focalLength lam = 0 then none else
@@ -137,9 +140,9 @@ def step (st : St) : List String → St × String
       if rest.length < n then (st, "bad-op") else
       match (rest.take n).mapM parseComp?, parseFocalGrid? st.focal (rest.drop n) with
       | some comps, some fg =>
-        match st.session, fg with
+        match st.session0, fg with
         | some ss, some fg =>
-          match runObj ss fg dir lam cheaper mat emu stokes k comps with
+          match runObj ss st.sets fg dir lam cheaper mat emu stokes k comps with
           | some r => (st, r)
           | none => (st, "err value")
         | _, _ => (st, "err value")
@@ -149,7 +152,7 @@ def step (st : St) : List String → St × String
     match calls.mapM parseCall? with
     | some cs =>
       let (_, log) := runCalls ⟨0⟩ [] cs
-      (st, "ok ids=" ++ ";".intercalate (log.map showRef))
+      (st, s!"ok arrays={(log.flatMap WfRef.ids).eraseDups.length} ids=" ++ ";".intercalate (log.map showRef))
     | none => (st, "bad-op")
   | ["setup", lam, f, d, n, z] =>
     match parseRat? lam, parseRat? f, parseRatList? d, parseNatList? n, parseRatList? z with
@@ -164,11 +167,12 @@ def step (st : St) : List String → St × String
     match parseRatList? d, parseNatList? n, parseRatList? z, parseSpec? spec with
     | some d, some n, some z, some f =>
       if !okLen d.length d n z then (st, "err value") else
-      ({ session := some { pupil := { delta := d, dims := n, zero := z }, focalLength := f } }, "ok")
+      ({ session := some { pupil := { delta := d, dims := n, zero := z }, focalLength := f },
+         session0 := some { pupil := { delta := d, dims := n, zero := z }, focalLength := f }, sets := [] }, "ok")
     | _, _, _, _ => (st, "bad-op")
   | "setf" :: spec =>
     match st.session, parseSpec? spec with
-    | some s, some f => ({ st with session := some (s.setFocalLength f) }, "ok")
+    | some s, some f => ({ st with session := some (s.setFocalLength f), sets := st.sets ++ [f] }, "ok")
     | none, some _ => (st, "err value")
     | _, none => (st, "bad-op")
   | ["at", lam] =>
